@@ -17,6 +17,9 @@ func main() {
 	if os.Args[1] == "--worker" {
 		os.Exit(monitors.WorkerMain(os.Args[2:]))
 	}
+	if os.Args[1] == "--synth" { // debug: vcheck --synth <family> <n> <outdir>
+		os.Exit(monitors.SynthDump(os.Args[2:]))
+	}
 	prop := os.Args[1]
 	cfg := core.NewConfig(prop)
 	for i := 2; i+1 < len(os.Args); i++ {
